@@ -554,10 +554,16 @@ impl World for ReteWorld {
         let sal = [0i32, *rng.pick(&[0i32, 5]), *rng.pick(&[-3i32, 10])];
         let rules: Vec<RRule> = (0..nrules)
             .map(|_| {
-                let nconj = 1 + rng.usize(2);
-                let cond = (0..nconj)
-                    .map(|_| (0..1 + rng.usize(2)).map(|_| Atom { field: rng.below(2) as u8, op: rng.below(6) as u8, lit: (base + rng.range(-2, 3)) }).collect())
-                    .collect();
+                // 1-2 disjuncts of 1-2 atoms; one rule in six is a longer chain of alternatives instead:
+                // 3-4 single equality tests (`T.a == 1 || T.a == 2 || T.b == 3`)
+                let cond: Vec<Vec<Atom>> = if rng.chance(1, 6) {
+                    (0..3 + rng.usize(2)).map(|_| vec![Atom { field: rng.below(2) as u8, op: 0, lit: (base + rng.range(-2, 3)) }]).collect()
+                } else {
+                    let nconj = 1 + rng.usize(2);
+                    (0..nconj)
+                        .map(|_| (0..1 + rng.usize(2)).map(|_| Atom { field: rng.below(2) as u8, op: rng.below(6) as u8, lit: (base + rng.range(-2, 3)) }).collect())
+                        .collect()
+                };
                 RRule {
                     ty: rng.below(ntypes as u64) as u8,
                     salience: *rng.pick(&sal),
